@@ -5,6 +5,7 @@
 import VotelibModel.Overhang
 import Mathlib.Data.List.Nodup
 import Mathlib.Tactic.Linarith
+import Mathlib.Algebra.Order.BigOperators.Group.List
 namespace VL.OH
 open VL
 
@@ -335,5 +336,63 @@ theorem distToSeats_sum : ∀ (d : Dist) (s : Seats), distToSeats d = some s →
       unfold sumSeats at this ⊢
       simp only [List.map_cons, List.sum_cons]
       omega
+
+/-! ### floors met ⇒ the floors sum to at most the distributed seats -/
+
+/-- remove the first entry with key `k` -/
+def delFirst : Dist → Key → Dist
+  | [], _ => []
+  | x :: xs, k => if x.1 = k then xs else x :: delFirst xs k
+
+theorem sumDist_delFirst (r : Dist) (k : Key) : sumDist r = distGet r k + sumDist (delFirst r k) := by
+  induction r with
+  | nil => simp [sumDist, distGet, delFirst]
+  | cons x xs ih =>
+    rw [distGet_cons]
+    simp only [delFirst]
+    by_cases hx : x.1 = k
+    · rw [if_pos hx, if_pos hx, sumDist_cons]
+    · rw [if_neg hx, if_neg hx, sumDist_cons, sumDist_cons, ih]; omega
+
+theorem distGet_delFirst_ne (r : Dist) (k k' : Key) (h : k' ≠ k) : distGet (delFirst r k) k' = distGet r k' := by
+  induction r with
+  | nil => rfl
+  | cons x xs ih =>
+    simp only [delFirst]
+    by_cases hx : x.1 = k
+    · rw [if_pos hx, distGet_cons, if_neg (by rw [hx]; exact fun e => h e.symm)]
+    · rw [if_neg hx, distGet_cons, distGet_cons, ih]
+
+/-- if `r` gives every key of `floors` (distinct keys) at least its floor, the floors sum to at most `Σ r` -/
+theorem sum_floors_le (floors : Dist) (hnd : (floors.map (·.1)).Nodup) :
+    ∀ r : Dist, MeetsFloors r floors → sumDist floors ≤ sumDist r := by
+  induction floors with
+  | nil => intro r _; simp [sumDist]
+  | cons p ps ih =>
+    intro r hm
+    rw [List.map_cons, List.nodup_cons] at hnd
+    have hp := hm p List.mem_cons_self
+    have hrest : MeetsFloors (delFirst r p.1) ps := by
+      intro q hq
+      have hne : q.1 ≠ p.1 := fun e => hnd.1 (e ▸ List.mem_map.mpr ⟨q, hq, rfl⟩)
+      rw [distGet_delFirst_ne r p.1 q.1 hne]
+      exact hm q (List.mem_cons_of_mem _ hq)
+    have := ih hnd.2 _ hrest
+    rw [sumDist_cons, sumDist_delFirst r p.1]
+    omega
+
+theorem lowestAllowed_keys (prop : Dist) (prev : Seats) :
+    (lowestAllowed prop prev).map (·.1) = prop.map (·.1) := by
+  unfold lowestAllowed
+  rw [List.map_map]
+  rfl
+
+theorem sumDist_lowestAllowed_ge (prop : Dist) (prev : Seats) : sumDist prop ≤ sumDist (lowestAllowed prop prev) := by
+  unfold sumDist lowestAllowed
+  rw [List.map_map]
+  apply List.sum_le_sum
+  intro p _
+  simp only [Function.comp]
+  omega
 
 end VL.OH
